@@ -1,7 +1,7 @@
 #!/bin/bash
 # combo.sh: every kept seed is applied ON TOP of a tree that already carries all (compatible) behaviour-preserving refactorings
 # of negcontrols/; the rule recorded for the seed must still report it.  Prints one line per seed.
-BASE=$(mktemp -d /tmp/xcm-combo-base-XXXX)
+BASE=$(mktemp -d /tmp/vfscratch-combo-base-XXXX)
 rsync -a --exclude .git --exclude '*.o' --exclude '*.lo' --exclude '*.la' --exclude .libs --exclude test --exclude python --exclude doc /repo/ $BASE/
 n=0
 for p in /verif/negcontrols/*.diff; do
@@ -13,7 +13,7 @@ one() {
   pid=$(python3 -c "import json;print(json.load(open('$d/meta.json'))['property'])")
   rules=$(python3 -c "import json;print(' '.join(json.load(open('$d/meta.json'))['caught_by']))")
   if ! (cd $BASE && patch -p1 -s -F3 --dry-run < $d/patch.diff) >/dev/null 2>&1; then echo "$name: skipped (does not apply on the refactored tree)"; return; fi
-  S=$(mktemp -d /tmp/xcm-combo-XXXX); rsync -a $BASE/ $S/; (cd $S && patch -p1 -s -F3 --no-backup-if-mismatch < $d/patch.diff) >/dev/null 2>&1
+  S=$(mktemp -d /tmp/vfscratch-combo-XXXX); rsync -a $BASE/ $S/; (cd $S && patch -p1 -s -F3 --no-backup-if-mismatch < $d/patch.diff) >/dev/null 2>&1
   res=""
   for r in $rules; do
     c=${r%%.*}
